@@ -108,12 +108,14 @@ Req(c, o) ==
           /\ evs' = <<[ev |-> "req", c |-> c, o |-> o], [ev |-> "reply", kind |-> "no_backend", b |-> 0]>>
      ELSE LET b == f.b
               failed == o \in {"fail", "abort"}
-              trip == PassiveOn /\ o = "fail" /\ pfail[b] + 1 >= Thr
+              \* an aborted response is recorded as a 502 and counts like any failed response
+              cnt == PassiveOn /\ o \in {"fail", "abort"}
+              trip == cnt /\ pfail[b] + 1 >= Thr
               e == Eject(f.s.flag, age, f.s.mirror, b)
           IN
           /\ (o = "hold" => infl[b] < MaxHold)
           /\ infl' = IF o = "hold" THEN [infl EXCEPT ![b] = @ + 1] ELSE infl
-          /\ pfail' = IF PassiveOn /\ o = "fail" THEN [pfail EXCEPT ![b] = IF trip THEN 0 ELSE @ + 1] ELSE pfail
+          /\ pfail' = IF cnt THEN [pfail EXCEPT ![b] = IF trip THEN 0 ELSE @ + 1] ELSE pfail
           /\ flag' = IF trip THEN e.flag ELSE f.s.flag
           /\ mirror' = IF trip THEN e.mirror ELSE f.s.mirror
           /\ age' = IF trip THEN e.age ELSE age
@@ -174,6 +176,16 @@ Remove(b) == /\ AdminOn /\ b \in SeqToSet(order) /\ Len(order) > 1 /\ infl[b] = 
              /\ evs' = <<[ev |-> "remove", b |-> b]>>
              /\ UNCHANGED <<strat, flag, age, pfail, rr, cw, infl, probe, mirror>>
 
+\* operations that must fail (or be no-ops) and change nothing: adding a name that is already
+\* configured, an unparsable address, an unknown strategy, removing an absent name
+BadOp(k, b) == /\ AdminOn
+               /\ k \in {"add_dup", "add_badurl", "strategy_unknown", "remove_absent"}
+               /\ (k = "add_dup" => b \in SeqToSet(order))
+               /\ (k \in {"remove_absent", "add_badurl"} => b \notin SeqToSet(order))
+               /\ (k = "strategy_unknown" => b = 1)
+               /\ evs' = <<[ev |-> k, b |-> b]>>
+               /\ UNCHANGED <<strat, order, flag, age, pfail, rr, cw, infl, probe, mirror>>
+
 SetStrategy(s) == /\ AdminOn /\ s \in Strategies /\ s # strat
                   /\ strat' = s /\ rr' = 0 /\ cw' = [b \in B |-> 0]
                   /\ evs' = <<[ev |-> "strategy", s |-> s]>>
@@ -183,6 +195,7 @@ Next == \/ \E c \in Clients, o \in Outcomes : Req(c, o)
         \/ \E b \in B : Release(b) \/ Mark(b) \/ Add(b) \/ Remove(b)
         \/ \E b \in B, r \in {"ok", "fail"} : SetProbe(b, r)
         \/ \E s \in Strategies : SetStrategy(s)
+        \/ \E b \in B, k \in {"add_dup", "add_badurl", "strategy_unknown", "remove_absent"} : BadOp(k, b)
         \/ Tick
 
 Spec == Init /\ [][Next]_vars
